@@ -12,7 +12,7 @@ ExportChannels == {"KeyPair::serialize_der", "KeyPair::serialized_der", "KeyPair
 (* the command line tool: everything it says and every file that is not a key file, on success and at each point where *)
 (* writing can fail                                                                                                   *)
 CliChannels == {
-  "Cli(stdout and stderr of a successful run)", "Cli(certificate files)",
+  "Cli(stdout and stderr of a successful run)", "Cli(stdout and stderr of a run with coinciding base names)", "Cli(certificate files)",
   "Cli(stdout and stderr when a key file cannot be created)", "Cli(stdout and stderr when a certificate file cannot be created)",
   "Cli(stdout and stderr when the output directory cannot be created)" }
 
